@@ -102,6 +102,13 @@ func (tr *Tracer) invoke(st *state, site ssa.Instruction, cc *ssa.CallCommon, fn
 		rt = cc.Signature().Results()
 	}
 	res := tr.callResult(st, site, rt)
+	// container/list contract: Remove(e) returns e.Value — the same value a read of e.Value gives at this point
+	if callee != nil && callee.String() == "(*container/list.List).Remove" && len(args) == 2 {
+		if fv := fieldVarByName(args[1].Typ, "Value"); fv != nil {
+			addr := &Sym{Kind: KFieldAddr, Args: []*Sym{args[1]}, Field: fv, Typ: types.NewPointer(fv.Type())}
+			res = tr.loadCell(st, addr, fv.Type())
+		}
+	}
 	ev.Res = res
 	st.emit(ev)
 	eff := tr.effectOf(ev, cc)
@@ -552,4 +559,25 @@ func (c *Ctx) isNewHelper(callee *ssa.Function) bool {
 		return false // a package the table does not know at all: leave it to the rule's own policy
 	}
 	return !names[helperName(top)]
+}
+
+// fieldVarByName: the field `name` of the struct a pointer type points to.
+func fieldVarByName(t types.Type, name string) *types.Var {
+	if t == nil {
+		return nil
+	}
+	p, ok := t.Underlying().(*types.Pointer)
+	if !ok {
+		return nil
+	}
+	st, ok := p.Elem().Underlying().(*types.Struct)
+	if !ok {
+		return nil
+	}
+	for i := 0; i < st.NumFields(); i++ {
+		if st.Field(i).Name() == name {
+			return st.Field(i)
+		}
+	}
+	return nil
 }
